@@ -286,6 +286,18 @@ def r_slots(ctx) -> None:
                 detail = f"validator output #{idx} fed with `{show(arg) if arg is not None else None}`"
             ctx.rep.check(ok, rule, c, f"slot carries the validated `{name}`", f"R slot `{name}` carries {detail}: the argument does not land in its designated field or is unvalidated", where=w)
         elif name == "direction":
+            if is_sym(t, "phi") and isinstance(h.expr, ast.Name):
+                # if direction == "left_to_right": d = 0 / else: d = 1   - the statement form of the conditional expression
+                alts_ = fv.alternatives(h.expr, cs.node)
+                if len(alts_) == 2:
+                    # conditions common to both alternatives (guards passed on the way) do not distinguish them
+                    common = {(key(r_), p_) for r_, p_ in alts_[0][0]} & {(key(r_), p_) for r_, p_ in alts_[1][0]}
+                    alts_ = [([(r_, p_) for r_, p_ in cd if (key(r_), p_) not in common], v_) for cd, v_ in alts_]
+                if len(alts_) == 2 and all(len(cd) == 1 for cd, _v in alts_):
+                    (c0, p0), v0 = alts_[0][0][0], alts_[0][1]
+                    (c1, p1), v1 = alts_[1][0][0], alts_[1][1]
+                    if key(c0) == key(c1) and p0 != p1:
+                        t = ast.IfExp(test=c0, body=v0 if p0 else v1, orelse=v1 if p0 else v0)
             ok = isinstance(t, ast.IfExp) and isinstance(t.test, ast.Compare) and is_name(t.test.left, "direction") and isinstance(t.test.comparators[0], ast.Constant)
             if ok:
                 lit = t.test.comparators[0].value
@@ -351,6 +363,13 @@ def r_slots(ctx) -> None:
             conds = fv.atoms_at(d, skip_raising=True)
             empty_ok = False
             shown = ""
+            if not conds:
+                # `tail = ""` up front, overwritten under a condition: the tail stays empty exactly when that condition is false
+                others = [d2 for d2 in sorted(fv.cfg.reaching()[cs.node].get(ex.expr.id, ())) if d2 != d and fv.cfg.dominates(d, d2)]
+                if len(others) == 1:
+                    conds = [(r_, not p_, b_) for r_, p_, b_ in fv.atoms_at(others[0], skip_raising=True)]
+                    if len(conds) != 1:
+                        conds = []
             for r, pol, br in conds:
                 cm = to_cmp(r, pol)
                 lens = [x for x in ast.walk(r) if isinstance(x, ast.Call) and call_fname(x) == "len"]
@@ -361,6 +380,9 @@ def r_slots(ctx) -> None:
                         empty_ok = True
                 elif isinstance(r, ast.Name) and not pol:
                     empty_ok = True
+                elif not pol and not isinstance(r, (ast.Compare, ast.BoolOp)) and any(isinstance(x, ast.Name) and x.id in ("exclude_wells", "exclude_list") for x in ast.walk(r)) \
+                        and not any(isinstance(x, ast.Call) and call_fname(x) not in ("list", "tuple", "sorted", "set") for x in ast.walk(r) if not is_sym(x)):
+                    empty_ok = True  # the truth value of the (converted) exclusion list itself
             ctx.rep.check(empty_ok, rule, f"{f.qualname}/R-exclusions-empty", "the exclusion tail is empty only for an empty exclusion list",
                           f"the exclusion tail is left empty under `{shown or 'an unrecognised condition'}`, which is not 'no well is excluded': a non-empty exclusion list is dropped "
                           "from the record and the robot dispenses into wells that were excluded", where=f.where(dn.ast))
@@ -498,7 +520,11 @@ def validator_numbers(ctx) -> None:
     terms = _raising_terms_all(fv, rn.id)
     w = v.where()
     # position: int, >= 0
-    pos_t = any(cls == "ValueError" and len(t) == 1 and t[0].kind == "isinstance" and t[0].var == "position" and not t[0].pol and "int" in t[0].types for t, n, cls in terms)
+    INT_TYPES = {"int", "numpy.integer", "np.integer", "numbers.Integral", "Integral"}
+    pos_t = any(cls == "ValueError" and len(t) == 1 and t[0].kind == "isinstance" and t[0].var == "position" and not t[0].pol and "int" in t[0].types and set(t[0].types) <= INT_TYPES for t, n, cls in terms)
+    wide = [t[0].types for t, n, cls in terms if cls == "ValueError" and len(t) == 1 and t[0].kind == "isinstance" and t[0].var == "position" and not t[0].pol and not set(t[0].types) <= INT_TYPES]
+    if wide:
+        ctx.rep.refuted(rule, f"{v.qualname}/position-type", f"position is accepted when it is an instance of {wide[0]}: non-integer numbers (numpy.float64(2.5), NaN) pass the type check and are printed into the record", where=w)
     P = Poly.symbol(ast.Name(id="position", ctx=ast.Load()))
     pos_r = any(cls == "ValueError" and len(t) == 1 and t[0].kind == "cmp" and t[0].cmp in (Cmp(-P, ">"), Cmp(Poly.const(1) - P, ">")) for t, n, cls in terms)
     ctx.rep.check(pos_t and pos_r, rule, f"{v.qualname}/position", "position must be a non-negative int", "position is not restricted to non-negative ints before it is printed", where=w)
